@@ -5,6 +5,7 @@ links as a `lean_exe`.
 -/
 import HermesModel.Proto
 import HermesModel
+import Driver.WaterOps
 open Hermes Hermes.Proto
 
 namespace Hermes.Driver
@@ -76,6 +77,7 @@ def step (line : String) : String :=
   | op :: _ =>
     if op.startsWith "date." then dateOps toks
     else if op.startsWith "part." then partOps toks
+    else if op.startsWith "water." then waterOps toks
     else "bad-op"
 
 partial def loop (hin hout : IO.FS.Stream) : IO Unit := do
